@@ -293,12 +293,6 @@ theorem run_sim {α : Type} {p : Prog α} (hp : Suff F strict p) :
 
 /-! ### what every history maintains -/
 
-/-- every local entry was made by a compilation numbered below `n`; every global memo entry holds the value `F` prescribes -/
-structure Inv (F : Store → PKey → Val) (n : Nat) (st : State) : Prop where
-  memoScope : ∀ e ∈ st.memo, ∀ g, e.1.2.scope = some g → g < n
-  memoGlobal : ∀ e ∈ st.memo, e.1.2.scope = none → e.2 = F e.1.1 e.1.2.key
-  addrScope : ∀ e ∈ st.addr, ∀ g, e.1.scope = some g → g < n
-
 theorem Inv.of_eq {n : Nat} {st st' : State} (h : Inv F n st) (h2 : st'.memo = st.memo) (h3 : st'.addr = st.addr) :
     Inv F n st' :=
   ⟨by rw [h2]; exact h.memoScope, by rw [h2]; exact h.memoGlobal, by rw [h3]; exact h.addrScope⟩
